@@ -245,8 +245,8 @@ class Ctx:
         except Violation:
             assert self.last_failure is not None
             self.add_failure(*self.last_failure)
-        except hypothesis.errors.Flaky as exc:  # nondeterministic oracle = harness problem
-            raise HarnessError(f"flaky check: {exc}") from exc
+        except hypothesis.errors.Flaky as exc:
+            self._flaky(exc)
         except BaseExceptionGroup as grp:  # pragma: no cover
             raise HarnessError(f"unexpected exception group {grp!r}")
 
@@ -264,7 +264,19 @@ class Ctx:
             assert self.last_failure is not None
             self.add_failure(*self.last_failure)
         except hypothesis.errors.Flaky as exc:
-            raise HarnessError(f"flaky check: {exc}") from exc
+            self._flaky(exc)
+
+    def _flaky(self, exc) -> None:
+        """The same case failed once and passed when Hypothesis re-ran it in the same process.
+
+        check_case is a pure function of (case, code under test), so this means the code under test keeps state between
+        calls (a per-process cache, a module-level generator...).  The observed failure is real and is reported, marked as
+        history dependent; without a recorded failure it is a harness problem."""
+        if self.last_failure is None:
+            raise HarnessError(f"flaky check without a recorded failure: {exc}") from exc
+        case, msgs = self.last_failure
+        self.add_failure(case, [m + "  [observed once; passed when re-run in the same process: the outcome depends on what the "
+                                    "process executed before]" for m in msgs])
 
     # -- result -----------------------------------------------------------------------------------------
     def result(self) -> dict:
